@@ -461,13 +461,16 @@ func genClBad(t *rapid.T) ClBad {
 	d := genClDoc(t)
 	d.FinalNewline = true
 	i := rapid.IntRange(0, len(d.Entries)-1).Draw(t, "which")
-	class := rapid.SampledFrom([]string{"header-no-open-paren", "header-no-close-paren", "bad-version", "trailer-single-space", "bad-month", "day-out-of-range", "unindented-body-line", "trailer-no-date", "bad-zone"}).Draw(t, "class")
+	class := rapid.SampledFrom([]string{"header-no-open-paren", "header-no-close-paren", "header-indented", "bad-version", "trailer-single-space", "bad-month", "day-out-of-range", "unindented-body-line", "trailer-no-date", "bad-zone"}).Draw(t, "class")
 	var sb strings.Builder
 	for j, e := range d.Entries {
 		sb.WriteString(gapText(e))
 		h, b, tr := renderClEntry(e)
 		if j == i {
 			switch class {
+			case "header-indented":
+				// a heading that got a blank (or two, or a tab) in front: not a heading any more
+				h = rapid.SampledFrom([]string{" ", "  ", "\t", " \t"}).Draw(t, "hind") + h
 			case "header-no-open-paren":
 				h = strings.Replace(h, "(", "", 1)
 			case "header-no-close-paren":
@@ -497,7 +500,7 @@ func genClBad(t *rapid.T) ClBad {
 
 var specC17Malformed = Register(&Spec[ClBad]{
 	Prop: "C17", Name: "malformed",
-	Rule: "one entry of a generated changelog is damaged in one way: header without '(' or without ')', unparsable version, trailer with a single space before the date, month 'Foo', day 32, an unindented body line, trailer without date, zone written 'UTC'. Oracle: Parse returns an error, or all entries of the model - never fewer entries without an error. Every case is non-trivial; distinct by text.",
+	Rule: "one entry of a generated changelog is damaged in one way: header without '(' or without ')', header pushed in by a blank or tab, unparsable version, trailer with a single space before the date, month 'Foo', day 32, an unindented body line, trailer without date, zone written 'UTC'. Oracle: Parse returns an error, or all entries of the model - never fewer entries without an error. Every case is non-trivial; distinct by text.",
 	Check: func(c ClBad, r *Recorder) error {
 		r.Case(c.Text, true, "malformed:"+c.Class)
 		r.Sample(map[string]string{"class": c.Class, "text": c.Text})
